@@ -5,6 +5,8 @@ import (
 	"go/constant"
 	"go/token"
 	"go/types"
+	"sort"
+	"strings"
 
 	"golang.org/x/tools/go/ssa"
 )
@@ -14,7 +16,7 @@ func init() {
 		id:  "C09",
 		run: runC09,
 		explanation: "Decided (structural, for every input string): " +
-			"C09.goroutine — every goroutine started on behalf of ParseQuery runs a function that closes the channel it sends tokens on at every exit, and ParseQuery defers (on every path) a function that receives from that channel until it is closed; so no parse, wherever it stops, leaves the lexer goroutine blocked (or there is no goroutine at all); " +
+			"C09.goroutine — every goroutine started on behalf of ParseQuery runs a function that closes the channel it sends tokens on at every exit, and ParseQuery defers (on every path) a function that receives from that channel until it is closed — or, instead of draining, every send on that channel is the case of a blocking select that also waits for a quit channel, and ParseQuery defers (on every path) a function that closes the quit channel before it waits for anything (a plain send left beside such selects is reported); so no parse, wherever it stops, leaves the lexer goroutine blocked (or there is no goroutine at all); " +
 			"C09.eof — every path through the top-level parse function to a return that can carry a query takes the branch on which the next token's type equals the end-of-input token (paths ending in the diverging error helper are cut), so trailing tokens are never accepted; " +
 			"C09.phrange — the int32 placeholder number stored in the tree comes only from constants or from strconv.ParseInt(_, 10, bits<=32) with its error tested (or an explicit upper-bound test), so huge numbers cannot wrap; the `>= 1` test dominates the store (a value produced by a parser helper is followed into every operand the helper can return, judged by what is known at that return, and a helper's parameter back to the call's argument — so parse, tests and the conversion may live in a helper); " +
 			"C09.lexinput — the lexer scans exactly ParseQuery's argument; C09.unquote — the string decoder removes exactly one delimiter at each end of a value token before turning `\"\"` into one quote (so '\"\"' adjacent to the delimiters is kept); " +
@@ -67,17 +69,43 @@ func c09Goroutine(c *Ctx) {
 			c.r.undecided(rule, key, "goroutine runs a function value the rule cannot resolve", c.w.ipos(g))
 			continue
 		}
-		// channel fields the goroutine sends on
+		// channel fields the goroutine sends on, and how: a plain (blocking) send, or the send case of a select — which
+		// blocks only as long as none of its other cases is ready (sendsOf would hide that difference)
 		sre := c.w.reach(spawned)
-		chans := map[*types.Var]bool{}
+		chans := map[*types.Var][]lexSend{}
+		var order []*types.Var
 		undec := false
 		for _, fn := range sre.sorted() {
 			allInstrs(fn, func(i ssa.Instruction) {
-				if s, ok := i.(*ssa.Send); ok {
-					if f := path(s.Chan).lastField(); f != nil {
-						chans[f] = true
-					} else {
+				add := func(ch ssa.Value, s lexSend) {
+					f := path(ch).lastField()
+					if f == nil {
 						undec = true
+						return
+					}
+					if _, had := chans[f]; !had {
+						order = append(order, f)
+					}
+					s.at, s.fn = i, fn
+					chans[f] = append(chans[f], s)
+				}
+				switch x := i.(type) {
+				case *ssa.Send:
+					add(x.Chan, lexSend{plain: true})
+				case *ssa.Select:
+					var s lexSend
+					s.nonblocking = !x.Blocking
+					for _, st := range x.States {
+						if st.Dir == types.RecvOnly {
+							if q := path(st.Chan).lastField(); q != nil {
+								s.guards = append(s.guards, q)
+							}
+						}
+					}
+					for _, st := range x.States {
+						if st.Dir == types.SendOnly {
+							add(st.Chan, s)
+						}
 					}
 				}
 			})
@@ -90,7 +118,7 @@ func c09Goroutine(c *Ctx) {
 			c.r.ok(rule, key, "goroutine does not send on any channel", c.w.ipos(g))
 			continue
 		}
-		for ch := range chans {
+		for _, ch := range order {
 			ckey := key + ": chan " + ch.Name()
 			isClose := func(i ssa.Instruction) bool {
 				cc := callCommon(i)
@@ -103,29 +131,151 @@ func c09Goroutine(c *Ctx) {
 				b, ok := cc.Value.(*ssa.Builtin)
 				return ok && b.Name() == "close" && path(cc.Args[0]).lastField() == ch
 			}
+			isReturn := func(i ssa.Instruction) bool { _, ok := i.(*ssa.Return); return ok }
 			// (i) every exit of the spawned function has passed close(ch) (call or defer registration)
-			if p := c.fc.pathAvoiding(spawned, nil, func(i ssa.Instruction) bool { _, ok := i.(*ssa.Return); return ok }, isClose); p != nil {
+			if p := c.fc.pathAvoiding(spawned, nil, isReturn, isClose); p != nil {
 				c.r.bad(rule, ckey+": close", "the lexer goroutine can finish without closing the channel it sends on: a reader cannot tell it is done, and draining it would block", []string{c.w.ipos(g)}, c.fc.witnessStrings(p)...)
 				continue
 			}
-			// (ii) ParseQuery defers a drain of ch on every path
+			// (ii) the goroutine is released wherever the parse stops. Either ParseQuery defers a drain of ch on every path
+			// (whatever is sent, and however, is then received) …
 			pq := c.a.ParseQuery
-			isDrainDefer := func(i ssa.Instruction) bool {
-				d, ok := i.(*ssa.Defer)
-				if !ok {
-					return false
-				}
-				f := calleeFunc(&d.Call)
-				return f != nil && drains(c, f, ch, 2)
+			deferredOnEveryPath := func(what func(f *ssa.Function) bool) []ssa.Instruction {
+				return c.fc.pathAvoiding(pq, nil, isReturn, func(i ssa.Instruction) bool {
+					d, ok := i.(*ssa.Defer)
+					if !ok {
+						return false
+					}
+					f := calleeFunc(&d.Call)
+					return f != nil && what(f)
+				})
 			}
-			if p := c.fc.pathAvoiding(pq, nil, func(i ssa.Instruction) bool { _, ok := i.(*ssa.Return); return ok }, isDrainDefer); p != nil {
-				c.r.bad(rule, ckey+": drain", "ParseQuery can return without having deferred a function that receives from the lexer's channel until it is closed: a parse that stops before the end of the input leaves the lexer goroutine blocked on its send forever",
-					[]string{c.w.pos(pq.Pos())}, c.fc.witnessStrings(p)...)
+			noDrain := deferredOnEveryPath(func(f *ssa.Function) bool { return drains(c, f, ch, 2) })
+			if noDrain == nil {
+				c.r.ok(rule, ckey, "closed by the goroutine at every exit; drained by a function ParseQuery defers on every path", c.w.ipos(g))
 				continue
 			}
-			c.r.ok(rule, ckey, "closed by the goroutine at every exit; drained by a function ParseQuery defers on every path", c.w.ipos(g))
+			// … or the quit protocol: nothing receives the remaining tokens, instead every send on ch is the case of a
+			// blocking select that also waits for a quit channel (a channel field of its own), and ParseQuery defers on every
+			// path a function that closes that channel (before it waits for anything). From then on no send can block, so the
+			// goroutine runs to its end (C09.progress). A send outside such a select is never released.
+			quits := map[*types.Var]bool{}
+			for _, s := range chans[ch] {
+				for _, q := range s.guards {
+					if !s.plain && !s.nonblocking {
+						quits[q] = true
+					}
+				}
+			}
+			anyNonblocking := false
+			for _, s := range chans[ch] {
+				anyNonblocking = anyNonblocking || s.nonblocking
+			}
+			if len(quits) == 0 && !anyNonblocking {
+				c.r.bad(rule, ckey+": drain", "ParseQuery can return without having deferred a function that receives from the lexer's channel until it is closed: a parse that stops before the end of the input leaves the lexer goroutine blocked on its send forever",
+					[]string{c.w.pos(pq.Pos())}, c.fc.witnessStrings(noDrain)...)
+				continue
+			}
+			stopped := map[*types.Var]bool{}
+			var qnames []string
+			for q := range quits {
+				q := q
+				stopped[q] = deferredOnEveryPath(func(f *ssa.Function) bool { return closesFirst(c, f, q, 2) }) == nil
+				qnames = append(qnames, q.Name())
+			}
+			sort.Strings(qnames)
+			good := true
+			reported := map[string]bool{}
+			for _, s := range chans[ch] {
+				skey := ckey + ": send in " + safeFname(s.fn)
+				if reported[skey] {
+					continue
+				}
+				released := false
+				for _, q := range s.guards {
+					if stopped[q] {
+						released = true
+					}
+				}
+				switch {
+				case s.plain && len(quits) == 0:
+					c.r.bad(rule, skey, "a plain blocking send on the lexer's channel, and ParseQuery can return without having deferred a function that receives from that channel until it is closed: a parse that stops before the end of the input leaves the lexer goroutine blocked on this send forever", []string{c.w.ipos(s.at)})
+				case s.plain:
+					c.r.bad(rule, skey, "a plain blocking send on the lexer's channel, while ParseQuery does not drain that channel but stops the lexer by closing "+strings.Join(qnames, "/")+" (which the other sends wait for in a select): if the parse stops before this token is read, the send blocks forever — the goroutine never finishes, and a ParseQuery that waits for it never returns",
+						[]string{c.w.ipos(s.at)})
+				case s.nonblocking:
+					c.r.undecided(rule, skey, "a non-blocking send (select with default) on the lexer's channel: it cannot block, but it drops the token whenever the parser is not already waiting for it", c.w.ipos(s.at))
+				case len(s.guards) == 0:
+					c.r.undecided(rule, skey, "the send is a case of a select whose other cases the rule cannot identify as a quit channel (a channel field closed by a function ParseQuery defers)", c.w.ipos(s.at))
+				case !released:
+					c.r.bad(rule, skey, "the select around this send waits for a channel that ParseQuery does not close on every path (no deferred function that closes it before waiting for anything else): a parse that stops before the end of the input leaves the lexer goroutine blocked in this select forever",
+						[]string{c.w.ipos(s.at), c.w.pos(pq.Pos())})
+				default:
+					continue
+				}
+				reported[skey] = true
+				good = false
+			}
+			if good {
+				c.r.ok(rule, ckey, "closed by the goroutine at every exit; every send on it is a select that also waits for "+strings.Join(qnames, "/")+", which a function ParseQuery defers on every path closes", c.w.ipos(g))
+			}
 		}
 	}
+}
+
+// lexSend: one send of the lexer goroutine on a channel field. plain: a send statement; otherwise the send case of a
+// select, with the channel fields its receive cases wait for (guards); nonblocking: the select has a default case.
+type lexSend struct {
+	at          ssa.Instruction
+	fn          *ssa.Function
+	plain       bool
+	nonblocking bool
+	guards      []*types.Var
+}
+
+// closesFirst: fn closes the channel field q on every path to its return, and before it can wait for anything (a
+// receive, a send, a blocking select, WaitGroup.Wait — `close(l.quit); l.wg.Wait()`; the other order, or a deferred
+// close, would wait for a goroutine that has not been told to stop). A wrapper all of whose paths call such a function
+// first counts as well (depth).
+func closesFirst(c *Ctx, fn *ssa.Function, q *types.Var, depth int) bool {
+	if fn == nil || fn.Blocks == nil {
+		return false
+	}
+	isReturn := func(i ssa.Instruction) bool { _, ok := i.(*ssa.Return); return ok }
+	waits := func(i ssa.Instruction) bool {
+		switch x := i.(type) {
+		case *ssa.Send:
+			return true
+		case *ssa.Select:
+			return x.Blocking
+		case *ssa.UnOp:
+			return x.Op == token.ARROW
+		case *ssa.Call:
+			return calleeName(&x.Call) == "(*sync.WaitGroup).Wait"
+		}
+		return false
+	}
+	closes := func(i ssa.Instruction) bool {
+		call, ok := i.(*ssa.Call)
+		if !ok {
+			return false
+		}
+		if b, ok := call.Call.Value.(*ssa.Builtin); ok {
+			return b.Name() == "close" && len(call.Call.Args) == 1 && path(call.Call.Args[0]).lastField() == q
+		}
+		f := calleeFunc(&call.Call)
+		return depth > 0 && f != nil && f != fn && c.w.inModule(f) && closesFirst(c, f, q, depth-1)
+	}
+	found := false
+	allInstrs(fn, func(i ssa.Instruction) {
+		if closes(i) {
+			found = true
+		}
+	})
+	if !found {
+		return false
+	}
+	return c.fc.pathAvoiding(fn, nil, isReturn, closes) == nil && c.fc.pathAvoiding(fn, nil, waits, closes) == nil
 }
 
 // drains: fn (or a callee within depth) receives from channel field ch with the comma-ok form and returns only once ok is false.
@@ -533,7 +683,7 @@ func c09Panics(c *Ctx) {
 		}
 		allInstrs(fn, func(i ssa.Instruction) {
 			p, ok := i.(*ssa.Panic)
-			if !ok {
+			if !ok || selectNoCasePanic(p) {
 				return
 			}
 			n++
@@ -607,6 +757,40 @@ func c09Panics(c *Ctx) {
 		c.r.ok(rule, "ParseQuery: recover", "a recover handler is deferred before parsing starts", c.w.pos(pq.Pos()))
 	}
 	c.r.expect(rule, 3)
+}
+
+// selectNoCasePanic: the panic go/ssa puts behind the case dispatch of a blocking select ("blocking select matched no
+// case"): not a statement of the program and unreachable — a blocking select always yields the index of one of its
+// cases. Recognised by its place: a position-less panic in the block reached only on the false edge of the comparison
+// of a select's case index with a constant.
+func selectNoCasePanic(p *ssa.Panic) bool {
+	b := p.Block()
+	if p.Pos() != token.NoPos || b == nil || len(b.Preds) != 1 {
+		return false
+	}
+	pred := b.Preds[0]
+	iff, ok := pred.Instrs[len(pred.Instrs)-1].(*ssa.If)
+	if !ok || len(pred.Succs) != 2 || pred.Succs[1] != b || pred.Succs[0] == b {
+		return false
+	}
+	cmp, ok := iff.Cond.(*ssa.BinOp)
+	if !ok || cmp.Op != token.EQL {
+		return false
+	}
+	ex, ok := cmp.X.(*ssa.Extract)
+	if !ok || ex.Index != 0 {
+		return false
+	}
+	sel, ok := ex.Tuple.(*ssa.Select)
+	if _, isK := constInt(cmp.Y); !isK || !ok || !sel.Blocking {
+		return false
+	}
+	mi, ok := p.X.(*ssa.MakeInterface)
+	if !ok {
+		return false
+	}
+	_, isStr := constString(mi.X)
+	return isStr
 }
 
 // lowerBounded: v >= 1 is known for every non-constant origin of v (constants are accepted as they are: 0 means "no placeholder").
